@@ -533,16 +533,38 @@ impl Wallet {
         self.available_balance
     }
 
-    /// The part of the balance that generate_slips can draw on: unspent slips that are not
-    /// about to be rebroadcast (same rule as in generate_slips).
+    /// The part of the balance that generate_slips can draw on for one transaction: unspent
+    /// slips that are not about to be rebroadcast, and no more of them than a transaction can
+    /// carry as inputs (same rules and same order as in generate_slips).
     pub fn get_spendable_balance(&self, latest_block_id: u64, genesis_period: u64) -> Currency {
-        self.unspent_slips
+        self.unspent_slips_in_selection_order()
             .iter()
             .filter_map(|key| self.slips.get(key))
             .filter(|slip| {
                 slip.block_id > latest_block_id.saturating_sub(genesis_period.saturating_sub(1))
             })
+            .take(u8::MAX as usize)
             .fold(0 as Currency, |sum, slip| sum.saturating_add(slip.amount))
+    }
+
+    /// the unspent slips in the order in which generate_slips goes through them
+    fn unspent_slips_in_selection_order(&self) -> Vec<SaitoUTXOSetKey> {
+        #[allow(unused_mut)]
+        let mut unspent_slips = self
+            .unspent_slips
+            .iter()
+            .cloned()
+            .collect::<Vec<SaitoUTXOSetKey>>();
+        #[cfg(test)]
+        {
+            // this part is compiled for tests to make sure selected slips are predictable. otherwise we will get random slips from a hashset
+            unspent_slips.sort_by(|slip, slip2| {
+                let slip = Slip::parse_slip_from_utxokey(slip).unwrap();
+                let slip2 = Slip::parse_slip_from_utxokey(slip2).unwrap();
+                slip.amount.cmp(&slip2.amount)
+            });
+        }
+        unspent_slips
     }
 
     pub fn get_unspent_slip_count(&self) -> u64 {
@@ -566,23 +588,9 @@ impl Wallet {
 
         // grab inputs
         let mut keys_to_remove = Vec::new();
-        let mut unspent_slips;
-        #[cfg(test)]
-        {
-            // this part is compiled for tests to make sure selected slips are predictable. otherwise we will get random slips from a hashset
-            unspent_slips = self.unspent_slips.iter().collect::<Vec<&SaitoUTXOSetKey>>();
-            unspent_slips.sort_by(|slip, slip2| {
-                let slip = Slip::parse_slip_from_utxokey(slip).unwrap();
-                let slip2 = Slip::parse_slip_from_utxokey(slip2).unwrap();
-                slip.amount.cmp(&slip2.amount)
-            });
-        }
-        #[cfg(not(test))]
-        {
-            unspent_slips = &self.unspent_slips;
-        }
+        let unspent_slips = self.unspent_slips_in_selection_order();
 
-        for key in unspent_slips {
+        for key in unspent_slips.iter() {
             let slip = self.slips.get_mut(key).expect("slip should be here");
 
             // Prevent using slips from blocks earlier than (latest_block_id - (genesis_period-1)
@@ -592,6 +600,12 @@ impl Wallet {
             }
 
             if nolan_in >= nolan_requested {
+                break;
+            }
+
+            // a transaction cannot carry more inputs than this (Transaction::add_from_slip
+            // drops the rest)
+            if inputs.len() >= u8::MAX as usize {
                 break;
             }
 
